@@ -279,7 +279,7 @@ func c03BoolLine(b bool) string { return "ok b:" + b2s(b) } // the result is a G
 // placements of a tree whose leaves read the root
 
 func (g *c03Run) emitTop(t *c03Node, root *Doc, cls string) {
-	g.c.Do(Case{Q: c03Text(t, false, "{", "}"), D: g.render(root), Cls: cls, InDomain: true, XK: "exact", X: c03BoolLine(c03Eval(t, root, root))})
+	g.c.DoR(Case{Q: c03Text(t, false, "{", "}"), D: g.render(root), Cls: cls, InDomain: true, XK: "exact", X: c03BoolLine(c03Eval(t, root, root))})
 }
 
 // nested in another group: eight wrappers (neutral and deciding constant siblings, before and after, double nesting)
@@ -327,7 +327,7 @@ func (g *c03Run) emitArg(t *c03Node, root *Doc, cls string, which int) {
 	default:
 		q, want = "$.f.AnyOf("+gt+",$.t)", !v
 	}
-	g.c.Do(Case{Q: q, D: g.render(root), Cls: cls, InDomain: true, XK: "exact", X: c03BoolLine(want)})
+	g.c.DoR(Case{Q: q, D: g.render(root), Cls: cls, InDomain: true, XK: "exact", X: c03BoolLine(want)})
 }
 
 // as a nested group inside a filter body: every element or none
@@ -338,7 +338,7 @@ func (g *c03Run) emitFilterNested(t *c03Node, root *Doc, cls string) {
 	if c03Eval(t, r2, r2) {
 		want = xs
 	}
-	g.c.Do(Case{Q: "$.xs[" + c03Text(t, false, "{", "}") + "]", D: g.render(r2), Cls: cls, InDomain: true, XK: "logical", X: logicalDoc(want)})
+	g.c.DoR(Case{Q: "$.xs[" + c03Text(t, false, "{", "}") + "]", D: g.render(r2), Cls: cls, InDomain: true, XK: "logical", X: logicalDoc(want)})
 }
 
 // the tree itself as a filter body `$.xs[MODE,...]`, leaves reading the element
@@ -350,7 +350,7 @@ func (g *c03Run) emitFilterBody(t *c03Node, elems []*Doc, extra []any, cls strin
 			kept = append(kept, e)
 		}
 	}
-	g.c.Do(Case{Q: "$.xs" + c03Text(t, true, "[", "]"), D: g.render(root), Cls: cls, InDomain: true, XK: "logical", X: logicalDoc(dArr(kept...))})
+	g.c.DoR(Case{Q: "$.xs" + c03Text(t, true, "[", "]"), D: g.render(root), Cls: cls, InDomain: true, XK: "logical", X: logicalDoc(dArr(kept...))})
 }
 
 // one shape, every assignment: the placements named in where ("top","nested","arg","fnested" all assignments; "filter"
